@@ -386,7 +386,7 @@ class Gen:
         head = [
             "// @generated by tools/genzoo.py — do not edit",
             "#![allow(unused_imports, clippy::all)]",
-            "use crate::suite::{entry, Entry};",
+            "use crate::suite::{entry, entry_ni, Entry};",
             "use crate::val::*;",
             "use savefile::prelude::*;",
             "use savefile::{AbiRemoved, Removed};",
@@ -456,7 +456,8 @@ def lib_entries():
     out = []
     for ty, nm in LIB:
         tags = '"lib"' + (', "zstseq"' if "<()>" in ty else "")
-        out.append('    v.push(entry::<%s>("%s", &[0], None, &[%s]));' % (ty, nm, tags))
+        fn = "entry_ni" if "Cell<" in ty and "RefCell" not in ty else "entry"
+        out.append('    v.push(%s::<%s>("%s", &[0], None, &[%s]));' % (fn, ty, nm, tags))
     return out
 
 
